@@ -358,6 +358,16 @@ func check(id, tier string) int {
 					ps.Merge(&cs)
 					continue
 				}
+				if pt.Race {
+					// free-running executions are not judged: a worker that died (a
+					// runtime fatal error such as concurrent map access, in the harness's
+					// own bookkeeping or after a race that was already reported) only
+					// shortens the sample; the race reports it wrote are still read
+					ps.Exhaustive = false
+					ps.CapNote = "a free-running worker ended early; its remaining executions were not run"
+					ps.Outcomes["free-run-worker-ended-early"]++
+					continue
+				}
 				// a worker that hung or died outside the library did not finish its
 				// share; what the other workers found and confirmed by replay still
 				// stands (see the end of check)
